@@ -116,10 +116,10 @@ ScriptOps ==
           a \in {x \in Addr(cur) : IsGraph(cur[x.id])}, s \in 1..2, b \in {x \in Addr(cur) : IsGraph(cur[x.id]) \/ IsVar(cur[x.id])}}
 
 \* the function may also return one Module of its arguments, looked up *before* the edits (so the script may detach it),
-\* bare or wrapped in a freshly created object; only jit / remat / eager return objects
+\* bare or wrapped in a freshly created object; only jit / remat / cached_partial / eager return objects
 EndScript == /\ phase = "script" /\ script # <<>> /\ phase' = "calls"
              /\ \/ ret' = NoRet
-                \/ /\ kind \in {"jit", "remat", "eager"}
+                \/ /\ kind \in {"jit", "remat", "eager", "cached_partial"}
                    /\ \E a \in {x \in Addr(heap) : IsGraph(heap[x.id])}, w \in BOOLEAN : ret' = [arg |-> a.arg, path |-> a.path, wrap |-> w]
              /\ UNCHANGED <<heap, nedits, nops, h, args, script, kind, eh, ncalls, trip, nflips>>
 
